@@ -13,9 +13,9 @@ From CNV Require Import Base.Prelude Base.Str Model.Decimal.
 From CNV Require Import Model.Call Spec.Call Proofs.Call Model.Export Spec.Export.
 From CNV Require Import Proofs.ExportBed Proofs.ExportSeg Proofs.ExportMatrix Proofs.ExportLabel.
 From CNV Require Import Proofs.ExportRound Proofs.ExportCi Proofs.ExportText Proofs.ExportOgt Proofs.ExportTheta
-  Proofs.FnExport.
+  Proofs.FnExport Proofs.FnExportVcf.
 From CNV Require Import Model.Ranges Spec.RangeQuery.
-From CNV Require Model.Formats Model.Vcf Model.VBaf Gen.FnCall Gen.ExportDefaults.
+From CNV Require Model.Formats Model.Vcf Model.VBaf Gen.FnCall Gen.ExportDefaults Gen.FnExportVcf.
 
 Local Open Scope Z_scope.
 
@@ -466,3 +466,37 @@ Example C20_ex_theta :
   = ThetaOk [("start_1_0:end_1_100", 1, 0, 100, 62, 1000); ("start_2_300:end_2_400", 2, 300, 400, 3000, 3000)]%string /\
   export_theta false false [mkTseg "chr3" 0 100 1 1 1]%string (Some [("chr3", 0, 50, 0%Q)]%string) [1%Q] = ThetaAttr.
 Proof. vm_compute. split; reflexivity. Qed.
+
+(* ---- source ties of segments2vcf: the per-row columns and ONE ITERATION of the record loop, translated
+   from the Python source on every run (Gen/FnExportVcf.v) *)
+
+(* out_dframe["start"] = segments.start.replace(0, 1) *)
+Theorem C20_source_vcf_start : forall lo, Gen.FnExportVcf.fn_vcf_start lo = vcf_pos lo.
+Proof. exact source_vcf_start. Qed.
+
+(* idx_losses, svlen (negated on losses), svtype (DUP / DEL) and format (GT:GQ:CN:CNQ / GT:GQ), per row *)
+Theorem C20_source_vcf_columns : forall n x lo hi,
+  Gen.FnExportVcf.fn_vcf_columns n x lo hi
+  = let l := n <? x in
+    (l, (let d := hi - lo in if l then d * Gen.ExportDefaults.svlen_loss_sign else d),
+     (if l then Gen.ExportDefaults.svtype_loss else Gen.ExportDefaults.svtype_gain),
+     (if l then Gen.ExportDefaults.format_loss else Gen.ExportDefaults.format_gain)).
+Proof. exact source_vcf_columns. Qed.
+
+(* one iteration of the record loop: a row is skipped iff its copy number is the expected one or its
+   probes are not a non-negative integer; otherwise it yields exactly the ten fields vcf_line joins
+   (the record vcf_one + the INFO text), for every CI text and every float text *)
+Theorem C20_source_vcf_step :
+  forall (s : seg) (n x p svlen : Z) (q : option ciquad) (tok : string * string)
+         (has_ci : bool) (a1 a2 b1 b2 : string),
+  let loss := n <? x in
+  let r := vcf_one s n x loss svlen q p in
+  Gen.FnExportVcf.fn_vcf_step (s_chrom s) (vcf_pos (s_lo s)) (s_hi s) n x p (v_svtype r) svlen (v_format r)
+              (fst tok) (snd tok) has_ci a1 a2 b1 b2
+  = if (n =? x) || negb (0 <=? p) then [] else [vcf_line_fields r tok (ci_texts has_ci a1 a2 b1 b2)].
+Proof. exact source_vcf_step. Qed.
+
+(* ... and the model's loop is those iterations one after the other *)
+Theorem C20_source_vcf_loop : forall rows nc ex svlen cis,
+  vcf_loop rows nc ex (map2 (fun n x => n <? x) nc ex) svlen cis = gen_vcf rows nc ex svlen cis.
+Proof. exact source_vcf_loop. Qed.
